@@ -15,6 +15,13 @@ QUICK_FILES = ['test/testfiles_for_unittests/sample_exe64.elf', 'test/testfiles_
                'test/testfiles_for_readelf/dwarf_test_versions_mix.elf', 'test/testfiles_for_readelf/dwarf_v5ops.so.elf']
 # large files that the quick tier uses only for the list generators (v5 location/range lists need a pure DWARF5 producer)
 LISTS_ONLY_QUICK = {'test/testfiles_for_readelf/dwarf_v5ops.so.elf'}
+# small files that the quick tier uses only for the held-container patterns (a RELR table, as a section and behind DT_RELR)
+HELD_ONLY_QUICK = ['test/testfiles_for_unittests/lib_relro.so.elf']
+HELD_NAMES = ('held_iter', 'held_count', 'held_get', 'held_first', 'held_list')
+# container classes in the order in which a file's containers are numbered (Api.tla: held container a): rare ones first
+HELD_RANK = ['RelrRelocationSection', 'RelrRelocationTable', 'GNUVerDefSection', 'GNUVerNeedSection', 'GNUVerSymSection',
+             'RelocationTable', 'RelocationSection', 'DynamicSection', 'SymbolTableSection', 'NoteSection',
+             'ARMAttributesSection', 'RISCVAttributesSection']
 MORE_FILES = ['test/testfiles_for_readelf/penalty_32_gcc.o.elf', 'test/testfiles_for_unittests/simple_gcc.elf.riscv', 'test/testfiles_for_unittests/exe_solaris64_cc.elf',
               'test/testfiles_for_unittests/dwarf_debug_types.elf', 'test/testfiles_for_unittests/lambda.elf',
               'test/testfiles_for_unittests/arm_exidx_test.so', 'test/testfiles_for_unittests/simple_mipsel.elf',
@@ -115,6 +122,100 @@ class World:
             st.seek({'zero': 0, 'mid': n // 2, 'end': n}[w])
 
 
+def _held_api(obj):
+    """API vocabulary of a container object: (iterate, count, random access, item -> plain data [drained], item -> plain
+    data with only the first nested item taken)."""
+    n = type(obj).__name__
+
+    def ver(x):
+        return None if x is None else (_c(x[0].entry), tuple((_c(y.entry), y.name) for y in x[1]) if hasattr(x[1], '__next__') else
+                                       (_c(x[1].entry), x[1].name))
+
+    def ver1(x):
+        if x is None:
+            return None
+        if not hasattr(x[1], '__next__'):
+            return (_c(x[0].entry), x[1].name)
+        first = next(x[1], None)                      # the way a symbol dump names a version: first auxiliary only
+        return (_c(x[0].entry), None if first is None else first.name)
+    if n in ('RelocationSection', 'RelrRelocationSection', 'RelocationTable', 'RelrRelocationTable'):
+        f = lambda r: _c(r.entry)
+        return obj.iter_relocations, obj.num_relocations, obj.get_relocation, f, f
+    if n in ('SymbolTableSection', 'GNUVerSymSection'):
+        return obj.iter_symbols, obj.num_symbols, obj.get_symbol, _sym, _sym
+    if n == 'DynamicSection':
+        f = lambda t: _c(t.entry)
+        return obj.iter_tags, obj.num_tags, obj.get_tag, f, f
+    if n in ('GNUVerDefSection', 'GNUVerNeedSection'):
+        return obj.iter_versions, obj.num_versions, obj.get_version, ver, ver1
+    if n == 'NoteSection':
+        f = lambda x: (x['n_name'], x['n_type'], x['n_offset'], x['n_size'], _c(x['n_desc']))
+        return obj.iter_notes, None, None, f, f
+    if n in ('ARMAttributesSection', 'RISCVAttributesSection'):
+        f = lambda x: (x['vendor_name'], x['length'])
+        return obj.iter_subsections, None, None, f, f
+    raise core.MachineryError('no container vocabulary for ' + n)
+
+
+def _held_obtain(w, loc):
+    """The container at catalogue locator loc, obtained once per world and kept (a long-lived object)."""
+    if loc not in w.handles:
+        if loc[0] == 'sec':
+            w.handles[loc] = w.ef.get_section(loc[1])
+        else:                                          # ('dyntab', index of the dynamic section, key)
+            w.handles[loc] = _held_obtain(w, ('sec', loc[1])).get_relocation_tables()[loc[2]]
+    return w.handles[loc]
+
+
+def _held(w, a):
+    held = w.cat['held']
+    if a >= len(held):
+        return None, None
+    return _held_obtain(w, held[a]['loc']), held[a]
+
+
+def _held_arg(info, b):
+    """Item argument b of a random access: positions spread over the container (one beyond its end), or the version
+    indexes the section defines (and one it does not) - taken from the catalogue, never from the object under test."""
+    if info['keys'] is not None:
+        return info['keys'][b % len(info['keys'])]
+    n = info['n']
+    return [0, n - 1, n // 2, 1, n // 3, n + 5][b % 6] if n else 0
+
+
+def _held_catalogue(w):
+    ef = w.ef
+    found = []
+    for i, sec in enumerate(ef.iter_sections()):
+        n = type(sec).__name__
+        if n in HELD_RANK:
+            found.append((HELD_RANK.index(n), len(found), ('sec', i)))
+        if n == 'DynamicSection':
+            try:
+                for key, tab in sorted(sec.get_relocation_tables().items()):
+                    found.append((HELD_RANK.index(type(tab).__name__), len(found), ('dyntab', i, key)))
+            except Exception:                           # noqa: other properties' business
+                pass
+    out = []
+    for _r, _k, loc in sorted(found):
+        obj = _held_obtain(w, loc)
+        _it, count, _get, _f, _f1 = _held_api(obj)
+        info = {'loc': loc, 'type': type(obj).__name__, 'n': 0, 'keys': None}
+        try:
+            if count is not None:
+                info['n'] = count()
+            if info['type'] == 'GNUVerDefSection':
+                ks = [v['vd_ndx'] for v, _aux in obj.iter_versions()]
+                info['keys'] = ks + [max(ks) + 1] if ks else [1]
+            elif info['type'] == 'GNUVerNeedSection':
+                ks = [x['vna_other'] for _v, aux in obj.iter_versions() for x in aux]
+                info['keys'] = ks + [max(ks) + 1] if ks else [1]
+        except Exception:                               # noqa
+            pass
+        out.append(info)
+    return out
+
+
 def catalogue(data):
     """Argument catalogue, taken once from a dedicated object (never used for answers)."""
     w = World(data)
@@ -162,6 +263,7 @@ def catalogue(data):
                 cat['locdies'][cu.cu_offset] = locs
         cat['info_size'] = w.di.debug_info_sec.size if w.di.debug_info_sec else 0
     cat['segs_load'] = [(s['p_vaddr'], s['p_filesz']) for s in ef.iter_segments() if s['p_type'] == 'PT_LOAD']
+    cat['held'] = _held_catalogue(World(data))
     return cat
 
 
@@ -276,6 +378,25 @@ def _answer(w, name, a, b):
         return (n, None if e is None else _c({k: v for k, v in vars(e).items()}))
     if name == 'has_dwarf':
         return (ef.has_dwarf_info(), ef.has_dwarf_info(strict=True))
+    if name in HELD_NAMES:
+        obj, info = _held(w, a)
+        if obj is None:
+            return None
+        it, count, get, full, first = _held_api(obj)
+        if name == 'held_count':
+            return None if count is None else count()
+        if name == 'held_list':
+            items = []
+            total = 0
+            for x in it():                              # a complete pass; the first CAP items are compared, and the count
+                if total < CAP:
+                    items.append(full(x))
+                total += 1
+            return (total, tuple(items))
+        if get is None:
+            return None
+        r = get(_held_arg(info, b))
+        return full(r) if name == 'held_get' else first(r)
     if name == 'address_offsets':
         seg = _pick(cat['segs_load'], a, 1)
         if seg is None:
@@ -285,6 +406,15 @@ def _answer(w, name, a, b):
         if not cat['nseg'] or not cat['nsec']:
             return None
         return ef.get_segment(a % cat['nseg']).section_in_segment(ef.get_section((b * 3) % cat['nsec']))
+    if name == 'dwarf_again' and b % 2 == 1:
+        # odd b: a view with the OTHER relocation flag (relocate_dwarf_sections=False), asked for whether or not the default
+        # (relocating) view of this file object exists already; its sections are the file's bytes as they are
+        import hashlib
+        if not ef.has_dwarf_info():
+            return None
+        d2 = ef.get_dwarf_info(relocate_dwarf_sections=False)
+        return tuple(('unrelocated:' + k, v.size, hashlib.sha1(v.stream.getvalue()).hexdigest()[:16])
+                     for k, v in sorted(vars(d2).items()) if k.endswith('_sec') and v is not None and hasattr(v, 'stream'))
     # ---- DWARF
     di = w.di
     if not di:
@@ -393,6 +523,12 @@ def start(w, kind, a, b):
     def sec_of(lst):
         t = _pick(lst, a, 1)
         return None if t is None else ef.get_section(t)
+    if kind == 'held_iter':
+        obj, _info = _held(w, a)
+        if obj is None:
+            return iter(())
+        it, _count, _get, full, _first = _held_api(obj)
+        return (full(x) for x in it())
     if kind == 'iter_sections':
         return (_sec(s) for s in ef.iter_sections())
     if kind == 'iter_segments':
@@ -480,12 +616,13 @@ class _Ledger:
 
 
 def _file_job(args):
-    rel, fi, nfiles, tier, hists_path, pats_path = args
+    rel, fi, nfiles, tier, hists_path, pats_path = args[:6]
+    share = args[6] if len(args) > 6 else (fi, nfiles)
     core.use_repo()
     led = _Ledger(tier)
     hists = list(core.Run.cases(hists_path))
     patterns = list(core.Run.cases(pats_path))
-    steps = _replay_file(led, rel, fi, nfiles, hists, patterns)
+    steps = _replay_file(led, rel, fi, nfiles, hists, patterns, share)
     return rel, led.mism, led.validated, led.counts, led.notes, led.samples, steps, led.nviol
 
 
@@ -497,9 +634,12 @@ def histories(run):
         raise core.MachineryError('Api simulation produced only %d histories' % nh)
     pres = run.tlc('Api', 'Api_patterns', workers=2)
     run.extra['api_patterns'] = sum(1 for _ in run.cases(pres.out))
-    files = QUICK_FILES if run.tier == 'quick' else QUICK_FILES + MORE_FILES
+    files = QUICK_FILES + HELD_ONLY_QUICK if run.tier == 'quick' else QUICK_FILES + MORE_FILES
     from multiprocessing import Pool
-    jobs = [(rel, fi, len(files), run.tier, res.out, pres.out) for fi, rel in enumerate(files)]
+    # the simulated histories are dealt out among the files that replay histories (quick: not the patterns-only files)
+    takers = [rel for rel in files if not (run.tier == 'quick' and (rel in LISTS_ONLY_QUICK or rel in HELD_ONLY_QUICK))]
+    jobs = [(rel, fi, len(files), run.tier, res.out, pres.out, (takers.index(rel), len(takers)) if rel in takers else None)
+            for fi, rel in enumerate(files)]
     # the largest file first
     jobs.sort(key=lambda j: -os.path.getsize(os.path.join(core.REPO, j[0])) if os.path.exists(os.path.join(core.REPO, j[0])) else 0)
     with Pool(min(8, core.NPROC)) as pool:
@@ -521,7 +661,7 @@ def histories(run):
     run.extra['api_files'] = len(files)
 
 
-def _replay_file(run, rel, fi, nfiles, hists, patterns):
+def _replay_file(run, rel, fi, nfiles, hists, patterns, share=None):
     steps = 0
     files = [None] * nfiles
     if True:
@@ -578,10 +718,14 @@ def _replay_file(run, rel, fi, nfiles, hists, patterns):
                           (o['a'], o['b']) if o['op'] == 'query' else None) for o in p[1:]))
             if cls in seenp:
                 continue
+            held = all(o['name'] in HELD_NAMES for o in p if o['op'] in ('query', 'start', 'advance'))
+            if run.tier == 'quick' and rel in HELD_ONLY_QUICK and not held:
+                continue
             if run.tier == 'quick' and rel in LISTS_ONLY_QUICK and (st['op'] != 'start' or st['name'] not in ('iter_location_lists', 'iter_range_lists')
                                                                    or any(o['op'] == 'query' for o in p)):
                 continue
-            if run.tier == 'quick' and st['op'] == 'start' and any(o['op'] == 'query' and (o['a'] != 0 or o['name'] not in QUICK_QUERIES) for o in p):
+            if run.tier == 'quick' and not held and st['op'] == 'start' and \
+                    any(o['op'] == 'query' and (o['a'] != 0 or o['name'] not in QUICK_QUERIES) for o in p):
                 continue
             # large files: the query-in-between pattern only with four representative queries
             if cat.get('info_size', 0) > 50000 and any(o['op'] == 'query' and o['name'] not in
@@ -589,8 +733,8 @@ def _replay_file(run, rel, fi, nfiles, hists, patterns):
                 continue
             seenp.add(cls)
             pats.append(p)
-        mine = (hists[fi::len(files)] if run.tier == 'quick' else hists) + pats
-        if run.tier == 'quick' and rel in LISTS_ONLY_QUICK:
+        mine = (hists[share[0]::share[1]] if run.tier == 'quick' and share else hists) + pats
+        if run.tier == 'quick' and share is None:
             mine = pats
         import time as _t
         _t0 = _t.time()
